@@ -396,6 +396,45 @@ func (e *engineC) compare(where string) {
 		if _, err := l.Get(m.prev); err != rlog.ErrNotFound {
 			e.violation("C13", "get-below-prev", "%s: Get(%d) at prev index returned %v, want ErrNotFound", where, m.prev, err)
 		}
+		below := uint64(e.rng.Intn(int(m.prev)))
+		if _, err := l.Get(below); err != rlog.ErrNotFound {
+			e.violation("C13", "get-below-prev", "%s: Get(%d) below prev index %d returned %v, want ErrNotFound", where, below, m.prev, err)
+		}
+		if len(m.entries) > 0 {
+			// a range that starts in the removed part
+			if _, err := l.GetN(m.prev, 2); err != rlog.ErrNotFound {
+				e.violation("C13", "getN-below-prev", "%s: GetN(%d,2) starting at prev index returned %v, want ErrNotFound", where, m.prev, err)
+			}
+		}
+		if v := l.ViewAt(below, m.last()); v != nil {
+			e.violation("C13", "view-below-prev", "%s: ViewAt(%d,%d) starts below prev index %d but is not nil", where, below, m.last(), m.prev)
+		}
+	}
+	if len(m.entries) > 0 {
+		if v := l.ViewAt(m.last(), m.prev); m.last() > m.prev && v != nil {
+			e.violation("C13", "view-inverted", "%s: ViewAt(%d,%d) is not nil", where, m.last(), m.prev)
+		}
+	}
+	if v := l.View(); v == nil || v.PrevIndex() != m.prev || v.LastIndex() != m.last() || v.Count() != uint64(len(m.entries)) {
+		e.violation("C13", "view-whole-mismatch", "%s: View() is not (%d,%d]", where, m.prev, m.last())
+	} else if len(m.entries) > 0 {
+		// an empty view in the middle, and a one-entry view: own bounds
+		mid := m.prev + uint64(e.rng.Intn(len(m.entries)))
+		if ev := l.ViewAt(mid, mid); ev == nil || ev.Count() != 0 || ev.Contains(mid) || ev.Contains(mid+1) {
+			e.violation("C13", "view-empty-mismatch", "%s: ViewAt(%d,%d) is not an empty view", where, mid, mid)
+		}
+		ov := l.ViewAt(mid, mid+1)
+		want, _ := m.get(mid + 1)
+		if ov == nil || ov.Count() != 1 || !ov.Contains(mid+1) || ov.Contains(mid) || ov.Contains(mid+2) {
+			e.violation("C13", "view-bounds-mismatch", "%s: ViewAt(%d,%d) bounds/contains wrong", where, mid, mid+1)
+		} else {
+			if b, err := ov.Get(mid + 1); err != nil || !bytes.Equal(b, want) {
+				e.violation("C13", "view-get-mismatch", "%s: ViewAt(%d,%d).Get(%d) = %d bytes err %v, appended %d bytes", where, mid, mid+1, mid+1, len(b), err, len(want))
+			}
+			if _, err := ov.Get(mid); err != rlog.ErrNotFound {
+				e.violation("C13", "view-get-below-prev", "%s: ViewAt(%d,%d).Get(%d) returned %v, want ErrNotFound", where, mid, mid+1, mid, err)
+			}
+		}
 	}
 	for i := m.prev + 1; i <= m.last(); i++ {
 		b, err := l.Get(i)
